@@ -45,19 +45,44 @@ ABSENT = [9999, 'no-such-period', -77]      # labels that are in none of the spa
 POOL = ['a1', '_a2', 'a3', 'a4', 'a5', 'GDP', '_g']
 
 
-class Plain(fsic.BaseModel):
-    ENDOGENOUS = ['A', 'B']
-    EXOGENOUS = ['C']
-    PARAMETERS = ['D']
-    ERRORS = []
-    NAMES = ENDOGENOUS + EXOGENOUS + PARAMETERS
-    CHECK = ENDOGENOUS
-    LAGS = 1
-    LEADS = 0
+# the variables are written 'A', 'B', 'C', 'D' in the case descriptions; a case may spell them otherwise (names longer than
+# one character, names that are prefixes / substrings of one another)
+LETTERS = ['A', 'B', 'C', 'D']      # how the generators write the variables
+NAMINGS = {None: ['A', 'B', 'C', 'D'], 'long': ['YD', 'Y', 'income_1', 'alpha_1'], 'nested': ['Y', 'YD', 'C_1', 'C']}
+_PLAIN = {}
 
-    def _evaluate(self, t, **kwargs):
-        self._A[t] = self._A[t - 1] * 0.5 + self._C[t]
-        self._B[t] = self._A[t] + self._D[t]
+
+def plain_class(names):
+    a, b, c, d = names
+
+    class Plain(fsic.BaseModel):
+        ENDOGENOUS = [a, b]
+        EXOGENOUS = [c]
+        PARAMETERS = [d]
+        ERRORS = []
+        NAMES = ENDOGENOUS + EXOGENOUS + PARAMETERS
+        CHECK = ENDOGENOUS
+        LAGS = 1
+        LEADS = 0
+
+        def _evaluate(self, t, **kwargs):
+            v = self.__dict__
+            v['_' + a][t] = v['_' + a][t - 1] * 0.5 + v['_' + c][t]
+            v['_' + b][t] = v['_' + a][t] + v['_' + d][t]
+    return Plain
+
+
+def use_names(key):
+    """Select the spelling of the four variables for the current case (module state: one case at a time per process)."""
+    global VARS, Plain
+    VARS = list(NAMINGS[key])
+    if key not in _PLAIN:
+        _PLAIN[key] = plain_class(VARS)
+    Plain = _PLAIN[key]
+    return dict(zip('ABCD', VARS))
+
+
+use_names(None)
 
 
 def resolve(amap, name):
@@ -169,12 +194,18 @@ def apply(m, op, amap, labels, aliased, rep=None):
 
 
 def check_case(case):
+    tr = use_names(case.get('names'))
+    if case.get('names'):
+        case = dict(case, aliases=[[tr.get(k, k), tr.get(v, v)] for k, v in case['aliases']],
+                    preferred=[tr.get(x, x) for x in case.get('preferred') or []])
+        if case.get('preferred_after'):
+            case['preferred_after'] = [case['preferred_after'][0], [tr.get(x, x) for x in case['preferred_after'][1]]]
     amap_items = [tuple(x) for x in case['aliases']]
     amap = dict(amap_items)
     preferred = list(case.get('preferred') or [])
     if case.get('labels') == 'alias-names':
         # period labels that happen to be spelt like the model's alias / variable names
-        labels = (POOL[:3] + ['A', 'p4', 'B'])[:case.get('n', 4)]
+        labels = (POOL[:3] + [VARS[0], 'p4', VARS[1]])[:case.get('n', 4)]
     else:
         labels = list(range(2000, 2000 + case.get('n', 4)))
     n = len(labels)
@@ -321,13 +352,13 @@ def acyclic_maps(max_entries):
         for keys in itertools.permutations(keys_pool, r):
             target_sets = []
             for k in keys:
-                if k in VARS:
+                if k in LETTERS:
                     target_sets.append([k])                       # self-map on a variable name
                 else:
-                    target_sets.append(['A', 'C'] + [x for x in keys if x != k and x not in VARS])
+                    target_sets.append(['A', 'C'] + [x for x in keys if x != k and x not in LETTERS])
             for targets in itertools.product(*target_sets):
                 amap = dict(zip(keys, targets))
-                if all(resolve(amap, k) in VARS for k in amap):
+                if all(resolve(amap, k) in LETTERS for k in amap):
                     yield [list(x) for x in zip(keys, targets)]
 
 
@@ -348,7 +379,11 @@ def gen_maps(max_entries):
                     prefs.append(keys[:2])
             case = {'aliases': amap, 'preferred': prefs[i % len(prefs)], 'n': 4, 'labels': 'alias-names' if i % 3 == 1 else 'int',
                     'init': [[0, 1, [1.0, 2.0, 3.0, 4.0]]] if i % 2 else [], 'ops': BASIC_OPS[i % 3:] + BASIC_OPS[:i % 3]}
+            case['names'] = [None, 'long', None, 'nested'][i % 4]
             yield case
+            if len(case['preferred']) == 2:
+                yield dict(case, names='nested', ops=[])
+                yield dict(case, names='nested', ops=[], preferred=case['preferred'][::-1])
             if keys and i % 5 == 0:
                 yield dict(case, rep=[1 + (i // 5) % 2])
             if len(keys) >= 2 and i % 4 == 0:
@@ -369,15 +404,15 @@ def strategy():
         amap = []
         for i, k in enumerate(keys):
             # target: a variable, or another alias of the map that is resolved independently of k (acyclic by index)
-            cands = VARS[:3] + list(keys[:i])
+            cands = LETTERS[:3] + list(keys[:i])
             amap.append([k, draw(st.sampled_from(cands))])
         # long chain on purpose
         if draw(st.booleans()) and nkeys >= 4:
             amap = [[keys[0], 'A']] + [[keys[j], keys[j - 1]] for j in range(1, nkeys)]
-        for v in draw(st.lists(st.sampled_from(VARS), max_size=2, unique=True)):
+        for v in draw(st.lists(st.sampled_from(LETTERS), max_size=2, unique=True)):
             amap.append([v, v])
         amap = draw(st.permutations(amap))
-        names = [k for k, _ in amap] + VARS
+        names = [k for k, _ in amap] + LETTERS
         preferred = draw(st.lists(st.sampled_from(names), max_size=3, unique=True))
         n = 4
         scal = st.sampled_from([0.0, 1.5, -2.0, 7])
@@ -403,6 +438,7 @@ def strategy():
         case = {'aliases': [list(x) for x in amap], 'preferred': preferred, 'n': n, 'init': init,
                 'labels': draw(st.sampled_from(['int', 'int', 'alias-names'])), 'ops': draw(st.lists(op, max_size=10))}
         case['rep'] = draw(tapes())
+        case['names'] = draw(st.sampled_from([None, None, 'long', 'nested']))
         if draw(st.integers(0, 2)) == 0:
             case['preferred_after'] = [draw(st.sampled_from(['assign', 'in-place'])),
                                        draw(st.lists(st.sampled_from(names), max_size=4, unique=True))]
